@@ -323,7 +323,10 @@ def truncate_basename(basename, iso_level, is_dir):
      specified.
     """
     if iso_level == 4:
-        # ISO level 4 allows "anything", so just return the original.
+        # ISO level 4 allows almost anything, so mostly return the original;
+        # only the identifiers of the 'dot' and 'dotdot' records are reserved.
+        if basename in ('\x00', '\x01'):
+            return '_'
         return basename
 
     if iso_level == 1:
@@ -383,7 +386,14 @@ def mangle_file_for_iso9660(orig, iso_level):
     valid_ext = ''
     splitter = orig.split('.')
     if iso_level == 4:
-        # A level 4 ISO allows 'anything', so just return the original.
+        # A level 4 ISO allows almost anything, so mostly return the original.
+        # What it does not allow is a ';' other than the one in front of the
+        # version, an identifier without any name or extension, and the two
+        # identifiers that are reserved for the 'dot' and 'dotdot' records.
+        orig = orig.replace(';', '_')
+        if orig in ('\x00', '\x01') or not orig.replace('.', ''):
+            orig = '_' * len(orig)
+        splitter = orig.split('.')
         if len(splitter) == 1:
             return orig, valid_ext
 
